@@ -1,7 +1,8 @@
 #!/bin/sh
+here="$(cd "$(dirname "$0")" && pwd)"
 # usage: seed_verify.sh <mutant dir with patch.diff + demo *_test.go> <package dir for the demo, e.g. rules>
 # Confirms in a scratch worktree of /repo HEAD: (a) suite passes with mutant, (b) demo fails with mutant, (c) demo passes without.
-. /verif/scripts/env.sh
+. $here/env.sh
 src="$1"; pkg="$2"
 wt=/tmp/vw-$$
 git -C /repo worktree add --detach $wt HEAD >/dev/null 2>&1 || exit 3
